@@ -452,6 +452,74 @@ class Program:
                 q = (e['name'] + '::' + nm) if e.get('scoped') else ((pre + '::' + nm) if pre else nm)
                 self.enumerators[q] = (e['name'], val)
         self._callers = None
+        self._apply_frozen_names()
+
+    # -- names ---------------------------------------------------------------
+    def _apply_frozen_names(self):
+        """Rename parameters (by position) and locals (by the shape of their initialiser) to the names they had on the
+        reference tree (checks/names.json), so that rules written in terms of those names are indifferent to renames;
+        locals that did not exist on the reference tree are marked transparent (canonical strings show their definition)."""
+        import json
+        import re
+        path = os.path.join(os.path.dirname(os.path.abspath(__file__)), 'names.json')
+        self.renamed = []
+        self.frozen_fids = None
+        if os.environ.get('VERIF_NO_NAMES') or not os.path.exists(path):
+            return
+        table = json.load(open(path))
+        self.frozen_fids = set(table)
+        from rules.effects import canon, _SD
+        for fn in self.funcs.values():
+            key = re.sub(r'@\d+:\d+', '@', fn.id)
+            ent = table.get(key)
+            fn.frozen_locals = None
+            if ent is None or fn.body is None:
+                continue
+            # parameters by position
+            if len(ent['params']) == len(fn.params):
+                for prm, want in zip(fn.params, ent['params']):
+                    if prm.get('name') and want and prm['name'] != want:
+                        self._rename(fn, 'Parm', prm['id'], prm['name'], want)
+                        prm['name'] = want
+            # locals by name first, then by (type, initialiser shape) in declaration order
+            decls = [n for n in fn.all_nodes() if n['k'] == 'VarDecl' and n.get('name')]
+            decls.sort(key=lambda n: n.get('id', 0))
+            frozen = [tuple(x) for x in ent['locals']]
+            unused = list(frozen)
+            for d in decls:
+                hit = next((x for x in unused if x[0] == d['name']), None)
+                if hit is not None:
+                    unused.remove(hit)
+            fnames = {x[0] for x in frozen}
+            for d in decls:
+                if d['name'] in fnames:
+                    continue
+                ks = [c for c in d.get('ch') or [] if c]
+                if not ks:
+                    continue
+                init = canon(fn, ks[0], inline=False)
+                t = (d.get('t') or '')
+                hit = next((x for x in unused if x[1] == t and x[2] is not None and x[2] == init), None)
+                if hit is not None:
+                    unused.remove(hit)
+                    self._rename(fn, 'Local', d['id'], d['name'], hit[0])
+                    d['name'] = hit[0]
+            fn.frozen_locals = fnames
+        _SD.clear()
+
+    def is_new_function(self, fn):
+        """a function the reference tree did not have (e.g. an extracted helper)"""
+        import re
+        if self.frozen_fids is None:
+            return False
+        return re.sub(r'@\d+:\d+', '@', fn.id) not in self.frozen_fids
+
+    def _rename(self, fn, kind, vid, old, new):
+        for n in fn.all_nodes():
+            r = n.get('ref')
+            if r and r.get('k') == kind and r.get('id') == vid:
+                r['n'] = new
+        self.renamed.append((fn.id, kind, old, new))
 
     # -- lookup -------------------------------------------------------------
     def fn(self, name, targs=None, ctargs=None, nparams=None):
